@@ -276,6 +276,11 @@ static std::string step(const Toks& t)
 		delete ps;
 		return out;
 	}
+	if (op == "wlen" && t.size() == 2) {
+		PStr ps(unhex(t[1]));
+		ps.unlock();   // dataw() resizes the buffer
+		return str(ps.s->wlength());
+	}
 	if (op == "warr" && t.size() == 2) {
 		std::vector<long long> v = ints(t[1]);
 		Array<wchar_t> a;
